@@ -75,7 +75,7 @@ def run(ctx, res):
     else:
         ex += R.exhaustive_cases(4, 2)[len(R.exhaustive_cases(3, 2)):]
     # 2. random profiles, 2-6 candidates, 1-60 ballots
-    rnd = [R.gen_case(rng) for _ in range(ctx.n(1600, 20000))]
+    rnd = [R.gen_case(rng) for _ in range(ctx.n(3200, 30000))]
     cases = R.run_cases(ex) + R.run_cases(rnd, rng)
     cr = C.run_corr(ctx.pid, "raire_ex", R.IMPORTS, "raire_case", ex, R.case_lit, "agree_c04", shard=500, show="show_c04")
     res.corr.append(("compute_raire_assertions output vs verified check_output / possible (RaireCheck.v), exhaustive small profiles",
